@@ -61,6 +61,11 @@ _active_clock_var: contextvars.ContextVar[Clock | None] = contextvars.ContextVar
 )
 
 
+# Global order in which futures get resolved (lets any_of pick the earliest of
+# several inputs that were already resolved when it is built).
+_resolve_counter = count(1)
+
+
 def _set_active_context(heap: EventHeap, clock: Clock) -> None:
     """Set the active simulation context. Called by Simulation.run()."""
     from happysimulator.core.event import _active_counter_var
@@ -121,6 +126,7 @@ class SimFuture:
         "_parked_on_complete",
         "_parked_process",
         "_parked_target",
+        "_resolve_seq",
         "_resolved",
         "_settle_callbacks",
         "_value",
@@ -128,6 +134,7 @@ class SimFuture:
 
     def __init__(self) -> None:
         self._resolved: bool = False
+        self._resolve_seq: int = 0
         self._value: Any = None
 
         # Parked continuation state (set by ProcessContinuation when it yields this)
@@ -201,6 +208,7 @@ class SimFuture:
         if self._resolved:
             return
         self._resolved = True
+        self._resolve_seq = _resolve_counter.__next__()
         self._value = value
         if self._parked_process is not None:
             self._resume()
@@ -313,8 +321,14 @@ def any_of(*futures: SimFuture) -> SimFuture:
 
     composite = SimFuture()
 
-    for i, f in enumerate(futures):
-        f._add_settle_callback(lambda sf, idx=i: composite.resolve((idx, sf._value)))
+    # Already-resolved inputs settle immediately: visit them in the order in which
+    # they were resolved, so the composite reports the first one to resolve.
+    order = sorted(
+        range(len(futures)),
+        key=lambda i: futures[i]._resolve_seq if futures[i]._resolved else float("inf"),
+    )
+    for i in order:
+        futures[i]._add_settle_callback(lambda sf, idx=i: composite.resolve((idx, sf._value)))
 
     return composite
 
